@@ -794,7 +794,14 @@ impl EliasFanoBuilder {
     /// [`build_with_dict`](EliasFanoConcurrentBuilder::build_with_dict), and
     /// [`build_with_seq_and_dict`](EliasFanoConcurrentBuilder::build_with_seq_and_dict)
     /// methods are more convenient.
+    ///
+    /// # Panics
+    ///
+    /// Panics if fewer than `n` values have been provided.
     pub fn build(self) -> EliasFano {
+        if self.count != self.n {
+            panic!("Not enough values: {} < {}", self.count, self.n);
+        }
         let high_bits: BitVec<Box<[usize]>> = self.high_bits.into();
         EliasFano {
             n: self.n,
